@@ -74,7 +74,7 @@ func instantiateSchedule(ops []regOp, variant int) []string {
 		}
 		return nil
 	}
-	for _, op := range ops {
+	for idx, op := range ops {
 		switch op.Op {
 		case "call":
 			id++
@@ -102,6 +102,25 @@ func instantiateSchedule(ops []regOp, variant int) []string {
 			if eps := enclosingParams(); len(eps) > 0 && r.Intn(5) == 0 {
 				name = eps[r.Intn(len(eps))] // loop variable coincides with a parameter (only read inside the body)
 			}
+			caught := false
+			// look ahead: is this loop left by an error that is caught just outside it?
+			depthN := 0
+			for _, later := range ops[idx+1:] {
+				if later.Op == "enter" {
+					depthN++
+				} else if later.Op == "exit" {
+					if depthN == 0 {
+						caught = later.Kind == "caught"
+						break
+					}
+					depthN--
+				} else if later.Op == "return" || later.Op == "error" {
+					break
+				}
+			}
+			if caught {
+				sb.WriteString("println(catch(")
+			}
 			if op.Reg {
 				fmt.Fprintf(&sb, "for %s = 2 {", name)
 				fmt.Fprintf(&sb, `println("L", %s); g = g + 1;`, name)
@@ -119,7 +138,11 @@ func instantiateSchedule(ops []regOp, variant int) []string {
 			if op.Kind == "break" {
 				sb.WriteString("break;")
 			}
-			sb.WriteString("};")
+			if op.Kind == "caught" {
+				sb.WriteString(`error("C");}).err);`)
+			} else {
+				sb.WriteString("};")
+			}
 			stack = stack[:len(stack)-1]
 		case "return":
 			sb.WriteString("return 7;")
@@ -211,7 +234,7 @@ func checkC05(c *Ctx) {
 	var meta []map[string]any
 	seen := map[string]bool{}
 	nSched := 0
-	stride := 1
+	stride := c.Pick(2, 1)
 	err = ReadLines(r.Emitted, func(line []byte) error {
 		var g struct {
 			H []regOp `json:"h"`
